@@ -265,7 +265,7 @@ func dataJobs(g *hc.Gen, budget int) []*job {
 		}
 		// 3. the same bytes on standard input
 		jobs = append(jobs, &job{Group: "data", Tags: append([]string{"query:stdin"}, tags...), Opts: withFmt(ov, pick(g, []string{"JSON", "CSV", "FIXED", "LTSV", "GFM"})),
-			Stmts: []string{pick(g, []string{"SELECT * FROM STDIN", "SELECT COUNT(*) FROM STDIN", "SELECT * FROM STDIN a, STDIN b LIMIT 3", "UPDATE STDIN SET `1` = 1"})}, HasStdin: true, Stdin: data, Probe: ""})
+			Stmts: []string{pick(g, stdinQueries(len(data)))}, HasStdin: true, Stdin: data, Probe: ""})
 	}
 	return jobs
 }
@@ -349,4 +349,14 @@ func (ip *inproc) check(j *job) (why string) {
 		}
 	}
 	return ""
+}
+
+// stdinQueries: the unconditional self-join squares the input, so it is only asked of small inputs (a generated
+// program must end within the watchdog by construction).
+func stdinQueries(size int) []string {
+	q := []string{"SELECT * FROM STDIN", "SELECT COUNT(*) FROM STDIN", "UPDATE STDIN SET `1` = 1"}
+	if size <= 2048 {
+		q = append(q, "SELECT * FROM STDIN a, STDIN b LIMIT 3")
+	}
+	return q
 }
